@@ -24,6 +24,7 @@ PROPS['C12'] = dict(
                  'drum keys >= 128 and melodic slots with a drum key are not generated (the statement does not define them)'],
     stages=[
         dict(name='hist', variant='asan', harness='c12_banksel.cpp', quick=30000, thorough=300000, budget=60),
+        dict(name='multidev', variant='asan', harness='c12_banksel.cpp', quick=3000, thorough=40000, budget=60),
         dict(name='memcheck', variant='plain-d', harness='c12_banksel.cpp', quick=1000, thorough=20000, budget=150, wall=2400, **{'as': 'hist'},
              wrapper=['valgrind', '-q', '--error-exitcode=79', '--exit-on-first-error=yes', '--track-origins=no', '--leak-check=no']),
     ],
